@@ -193,7 +193,7 @@ def _cost(game, args):
 # ------------------------------------------------------------------ C01 / C04 / C06: reachability side (native doubles)
 def _reach_jobs(tier, seed):
     return [dict(game=g, args=a, _cost=1) for g, a in _stopping_instances(tier) + _reach_only_instances(tier)] + \
-        [dict(game="slow_chain", args=[], _props=["C01"])]
+        [dict(game="slow_chain", args=[], _props=["C01"]), dict(game="fig55", args=[5e-7, 5e-7], _props=["C06"])]
 
 
 def _check_shape(sp, g, res):
@@ -499,3 +499,160 @@ def pipe_conditioning(sp, game, args):
         if g.players[s] == P2:
             sp.cover("p2_kept")
             sp.prove(got == g.tl[s], "Player 2 state %d lost a transition" % s)
+
+
+# ------------------------------------------------------------------ C01 / C04: acyclic templates with SYMBOLIC probabilities
+def _acyclic_sym(name, sp):
+    """(players, transition list with symbolic probabilities, finals)"""
+    # probabilities in [1/500, 499/500]: values below the solver's threshold are a separate, recorded finding (KF-3)
+    pr = lambda n: sp.real(n, core.Fraction(1, 500), core.Fraction(499, 500))
+    if name == "fig55":
+        p, q = pr("p"), pr("q")
+        return ([P1, P2, P2, PR, PR, PR, PR, PR],
+                [[("alfa", 1), ("beta", 2)], [("x", 3), ("y", 5)], [("x", 4), ("y", 6)], [(p, 6), (1 - p, 7)], [(q, 6), (1 - q, 7)],
+                 [(1, 5)], [(1, 6)], [(1, 7)]], [6])
+    if name == "p1_three":      # Player 1 over three chance states
+        a, b, c = pr("a"), pr("b"), pr("c")
+        return ([P1, PR, PR, PR, PR, PR], [[("a", 1), ("b", 2), ("c", 3)], [(a, 4), (1 - a, 5)], [(b, 4), (1 - b, 5)], [(c, 4), (1 - c, 5)],
+                                            [(1, 4)], [(1, 5)]], [4])
+    if name == "p2_three":
+        a, b, c = pr("a"), pr("b"), pr("c")
+        return ([P2, PR, PR, PR, PR, PR], [[("a", 1), ("b", 2), ("c", 3)], [(a, 4), (1 - a, 5)], [(b, 4), (1 - b, 5)], [(c, 4), (1 - c, 5)],
+                                            [(1, 4)], [(1, 5)]], [4])
+    if name == "chance_over_players":   # chance above a Player 1 and a Player 2 choice
+        a, b, r = pr("a"), pr("b"), pr("r")
+        return ([PR, P1, P2, PR, PR, PR, PR],
+                [[(r, 1), (1 - r, 2)], [("u", 3), ("v", 4)], [("u", 3), ("v", 4)], [(a, 5), (1 - a, 6)], [(b, 5), (1 - b, 6)], [(1, 5)], [(1, 6)]], [5])
+    raise KeyError(name)
+
+
+def _backward(players, tl, finals):
+    """exact values of an acyclic game by backward induction, as z3 terms"""
+    n = len(players)
+    val = {}
+
+    def v(s):
+        if s in val:
+            return val[s]
+        if s in finals:
+            r = z3.RealVal(1)
+        elif all(t == s for _, t in tl[s]):
+            r = z3.RealVal(0)
+        else:
+            succ = [v(t) for _, t in tl[s]]
+            if players[s] == P1:
+                r = zmax(succ)
+            elif players[s] == P2:
+                r = zmin(succ)
+            else:
+                r = z3.Sum([to_real(p) * x for (p, _), x in zip(tl[s], succ)])
+        val[s] = r
+        return r
+    return [v(s) for s in range(n)]
+
+
+@harness("pipe.reach_symbolic", props=["C01", "C04", "C06"],
+         jobs=lambda tier, seed: [dict(name=n, prune=p, _cost=30, _timeout_s=1500) for n in ("fig55", "p1_three", "p2_three", "chance_over_players")
+                                  for p in (True, False)],
+         covers=["returned"], stubs=["logging -> sweep counter", "max/min -> merging proxies"],
+         bounds="four acyclic templates (6-8 states) with ALL chance probabilities symbolic reals in [1/500, 499/500]; reachability phase of the "
+                "pipeline (real check_game, init_states, reverse_dfs, value_iteration_reachability, strategy extraction)",
+         assumes=["exact-real arithmetic; round(x,6) modelled as a monotone function within 5e-7 of x"],
+         desc="for every value of the probabilities at once: reported probabilities equal the backward-induction values of the acyclic "
+              "game exactly; finals 1, sinks 0; reachability strategies are the exact optimal sets where competing values are equal or "
+              "more than 1e-5 apart; 'no solution' iff pruning and the value of the initial state is 0")
+def pipe_reach_symbolic(sp, name, prune):
+    players, tl, finals = _acyclic_sym(name, sp)
+    n = len(players)
+    desc = dict(rewards=[0] * n, players=players, transition_list=tl, final_states=finals)
+    kind, res = reach_phase(sp, desc, prune)
+    exact = _backward(players, tl, finals)
+    if kind == "nosol":
+        sp.prove(z3.And(exact[0] == 0, prune), "'no solution' although the initial state has positive value or pruning is off")
+        return
+    sp.cover("returned")
+    if prune:
+        sp.prove(exact[0] != 0, "pruning on and the initial state has value 0, but no error was raised")
+    probs, strat = res[3], res[1]
+    for s in range(n):
+        sp.prove(to_real(probs[s]) == exact[s], "reported probability of state %d is not its exact value" % s)
+    conds = []
+    for s in range(n):
+        if players[s] != PR:
+            ts = sorted({t for _, t in tl[s]})
+            for a, b in itertools.combinations(ts, 2):
+                d = exact[a] - exact[b]
+                conds.append(z3.Or(d == 0, d > rat(1e-5), -d > rat(1e-5)))
+    if conds:
+        if sp.check(z3.And(conds)) != z3.sat:
+            return
+        sp.assume(z3.And(conds))
+    for s in range(n):
+        if players[s] == PR:
+            sp.prove(strat[s] is None, "chance state %d has a strategy" % s)
+            continue
+        succ = [exact[t] for _, t in tl[s]]
+        ext = zmax(succ) if players[s] == P1 else zmin(succ)
+        sp.prove(strat[s] == [a for a, _ in tl[s] if a in strat[s]], "strategy of state %d not in transition order" % s)
+        for (a, t) in tl[s]:
+            if a in strat[s]:
+                sp.prove(exact[t] == ext, "reachability strategy of state %d lists %r, which is not optimal" % (s, a))
+            else:
+                sp.prove(exact[t] != ext, "reachability strategy of state %d misses the optimal action %r" % (s, a))
+
+
+# ------------------------------------------------------------------ C02 / C03: conditioning with SYMBOLIC probabilities and rewards (acyclic)
+def _symprob_jobs(tier, seed):
+    arr = [["D", "A"], ["A", "D"], ["D", "D", "A"], ["D", "A", "D"], ["A", "D", "D"], ["A", "D", "B"], ["E", "A", "D"], ["D", "F", "D"]]
+    if tier == "thorough":
+        arr += [list(x) for x in itertools.product("DAF", repeat=3)] + [["D", "A", "D", "B"], ["A", "D", "D", "F"], ["D", "D", "A", "D"]]
+    return [dict(succ=a, prune=p, kind=k, _cost=20, _timeout_s=1500) for a in arr for p in (True, False) for k in (PR, P1)]
+
+
+@harness("pipe.rewards_symbolic_probs", props=["C02", "C03"], jobs=_symprob_jobs, covers=["solved"],
+         stubs=["logging -> sweep counter", "max/min -> merging proxies"],
+         bounds="chance or Player 1 initial state with 2-4 successors (dead sink / dead-but-connected / alive chance / final in 8 "
+                "(thorough 38) arrangements); the initial chance state's distribution (>= 1/100 each, summing to 1) or, under a Player 1 initial state, the "
+                "two alive chance states' success probabilities (in [1/100, 99/100]) are SYMBOLIC, and so are three rewards in {0} u [1/8,4]",
+         assumes=["exact-real arithmetic", "probabilities >= 1/100 (values below the threshold: KF-3)"],
+         desc="real solve(): for all probabilities and rewards at once the reported rewards equal the unique solution of the "
+              "reference-conditioned game's equations, i.e. the renormalisation by the surviving mass is right for every distribution")
+def pipe_rewards_symbolic_probs(sp, succ, prune, kind=PR):
+    g = G.dead_family(kind, succ)
+    desc = g.description(sp)
+    K = len(succ)
+    gtl = [list(x) for x in g.tl]
+    if kind == PR:
+        ps = [sp.real("p%d" % i, core.Fraction(1, 100), 1) for i in range(K)]
+        sp.assume(sp.eq(vsum(ps), 1))
+        gtl[0] = [(ps[i], g.tl[0][i][1]) for i in range(K)]
+    else:
+        # Player 1 on top: the two alive chance states reach the final state with symbolic probabilities a and b
+        # (kept concrete under a symbolic distribution: the product p_i/mass * a made z3 give up on some instances)
+        a = sp.real("a", core.Fraction(1, 100), core.Fraction(99, 100))
+        b = sp.real("b", core.Fraction(1, 100), core.Fraction(99, 100))
+        gtl[3] = [(a, 5), (1 - a, 1)]
+        gtl[4] = [(b, 5), (1 - b, 1)]
+    for i in (0, 3, 4):
+        desc["transition_list"][i] = list(gtl[i])
+    kind, res = solve(sp, desc, prune)
+    if kind == "nosol":
+        sp.prove(prune and all(k in "DCE" for k in succ), "'no solution' although some successor of the initial state is alive")
+        return
+    sp.cover("solved")
+    rewards, probs, rstrat = res[2], res[3], res[1]
+    ctl = G.condition(g.players, gtl, probs, rstrat, prune)
+    states = sorted(G.reach_from0(ctl)) if prune else list(range(g.n))
+    w, cons = G.bellman_rewards(g.players, ctl, states, desc["rewards"])
+    sp.add(cons)
+    if sp.check() != z3.sat:
+        raise core.Inconclusive("reward oracle has no solution on this path")
+    sp.model = None
+    for s in states:
+        sp.prove(zabs(to_real(rewards[s]) - w[s]) <= rat(TOL), "expected reward of state %d differs from the conditioned game's value" % s)
+    if prune and kind == PR:
+        alive = [i for i in range(K) if succ[i] in "ABFT"]
+        mass = vsum([ps[i] for i in alive])
+        # C03 (iii) through the pipeline: reported reward of the initial state = r0 + sum p_i/mass * w_i
+        sp.prove(zabs(to_real(rewards[0]) - (to_real(desc["rewards"][0]) + z3.Sum([to_real(ps[i]) / to_real(mass) * w[g.tl[0][i][1]] for i in alive])))
+                 <= rat(TOL), "initial state's reward is not the mass-renormalised average of the surviving successors")
